@@ -8,8 +8,10 @@ import VivModel.Model.Machine
   sm active <from> <pos> on|off <sims>      set_active / set_inactive             → ok | err value notTriggered
   sm draws <state> <d,…>                    draws of that transition set's stream (per simulant label)
   sm tab <st,…>                             overwrite the state column
+  sm tracked <0/1,…>                        overwrite the tracked column
+  sm cleanup <idx,…>                        Machine.cleanup: the cleanup_effect calls  → ok <state>:<i,…>;… | err …
   sm transition <idx,…>                     Machine.transition
-        → ok <st,…> <other,…> <path;path;…> <near,…>  |  err <class> <detail>
+        → ok <st,…> <other,…> <path;path;…> <near,…> <tracked,…>  |  err <class> <detail>
      (paths: per element of idx the states entered, pointwise model; near: labels whose decision is within
       2^-40 of a bin edge)
   sm choose <self> <wd> <dd> <row;row;…> <d,…>   normalizeAll + choiceIdx per row   → ok <k,…> | err value <detail> -/
@@ -92,6 +94,20 @@ def step (s : St) : List String → St × String
       if sts.length != s.tab.length then (s, "bad-op") else
       ({ s with tab := List.zipWith (fun r st => { r with st := st }) s.tab sts }, "ok")
     | none => (s, "bad-op")
+  | ["sm", "tracked", bs] =>
+    match natList bs with
+    | some bs =>
+      if bs.length != s.tab.length then (s, "bad-op") else
+      ({ s with tab := List.zipWith (fun r b => { r with tracked := b != 0 }) s.tab bs }, "ok")
+    | none => (s, "bad-op")
+  | ["sm", "cleanup", idx] =>
+    match natList idx with
+    | none => (s, "bad-op")
+    | some idx =>
+      match cleanupCalls s.m s.tab idx with
+      | .error e => (s, "err " ++ errStr e)
+      | .ok calls =>
+        (s, "ok " ++ (if calls.isEmpty then "-" else ";".intercalate (calls.map (fun c => s!"{c.1}:{showNats c.2}"))))
   | ["sm", "transition", idx] =>
     match natList idx with
     | none => (s, "bad-op")
@@ -100,13 +116,17 @@ def step (s : St) : List String → St × String
       match transition s.m fuel s.tab idx with
       | .error e => (s, "err " ++ errStr e)
       | .ok tab' =>
+        let seen := fun (i : Nat) => s.tab[i]?.bind Row.seen
         let paths := idx.map (fun i =>
-          match moveOne s.m fuel ((s.tab[i]?.map (·.st)).getD 0) i with
-          | .ok p => if (s.tab[i]?.map (·.st)).getD 0 < s.m.states.length then showNats p else "-"
-          | .error _ => "!")
-        let near := idx.filter (fun i => nearOne s.m fuel ((s.tab[i]?.map (·.st)).getD 0) i)
+          match seen i with
+          | none => "-"                       -- untracked: not shown to the machine, not processed
+          | some st =>
+            match moveOne s.m fuel st i with
+            | .ok p => showNats p
+            | .error _ => "!")
+        let near := idx.filter (fun i => match seen i with | none => false | some st => nearOne s.m fuel st i)
         ({ s with tab := tab' },
-         s!"ok {showNats (tab'.map (·.st))} {showInts (tab'.map (·.other))} {if paths.isEmpty then "-" else ";".intercalate paths} {showNats near}")
+         s!"ok {showNats (tab'.map (·.st))} {showInts (tab'.map (·.other))} {if paths.isEmpty then "-" else ";".intercalate paths} {showNats near} {showNats (tab'.map (fun r => if r.tracked then 1 else 0))}")
   | ["sm", "choose", so, wd, dd, rows, draws] =>
     -- `_normalize_probabilities` on a whole matrix, then `_choice` with the given draws (exact stream: the
     -- harness calls the two functions directly with dyadic draws that hit the bin edges)
